@@ -8,6 +8,7 @@ from mbt import framework  # noqa: E402
 REGISTRY = {
     'C01': ('checks.streams', 'c01'),
     'C02': ('checks.servlets', 'c02'),
+    'C03': ('checks.ops', 'c03'),
     'C04': ('checks.servlets', 'c04'),
     'C05': ('checks.streams', 'c05'),
     'C06': ('checks.server', 'c06'),
@@ -17,8 +18,11 @@ REGISTRY = {
     'C10': ('checks.tee', 'c10'),
     'C11': ('checks.lifecycle', 'c11'),
     'C12': ('checks.proc', 'c12'),
+    'C15': ('checks.transport', 'c15'),
     'C16': ('checks.streams', 'c16'),
     'C17': ('checks.iterqueue', 'c17'),
+    'C18': ('checks.transport', 'c18'),
+    'C19': ('checks.ops', 'c19'),
     'C20': ('checks.proc', 'c20'),
 }
 
